@@ -249,7 +249,13 @@ class Model(object):
 
     def _finish(self, s):
         out = self.outcome(s)
-        self.outcomes[freeze(out)] = out
+        k = freeze(out)
+        self.outcomes[k] = out
+        # action runs consumed by this run (a parent model continues the
+        # per-key attempt counters after a child run)
+        runs = self.__dict__.setdefault('outcome_runs', {}).setdefault(k, {})
+        for key, n in s.runs.items():
+            runs[key] = max(runs.get(key, 0), n)
 
     def outcome(self, s):
         tasks = sorted(
@@ -321,12 +327,21 @@ class Model(object):
             self._after_complete(s, iid, ERROR)
             return self._settle_all(s)
         declared = set(child.get('input') or {})
+        # the child continues the per-key attempt counters of this run
+        # (results are looked up by how often an action key ran so far)
+        shifted = {}
+        for k, seq in (self.results or {}).items():
+            n = s0.runs.get(k, 0)
+            shifted[k] = list(seq[min(n, len(seq) - 1):]) if seq else seq
         cm = Model(child, {k: v for k, v in winp.items() if k in declared},
-                   self.results, self.env, self.skipped,
+                   shifted, self.env, self.skipped,
                    self.timeouts_may_win)
         cm.run()
-        for o in cm.outcomes.values():
+        for ok, o in cm.outcomes.items():
             s = s0.copy()
+            for k, n in (getattr(cm, 'outcome_runs', {}).get(ok)
+                         or {}).items():
+                s.runs[k] = s.runs.get(k, 0) + n
             inst = s.insts[iid]
             st = o['wf']
             if st not in (SUCCESS, ERROR, CANCELLED):
